@@ -113,6 +113,23 @@ static int rf_close(const rforest *f, int alg, rnode *root) {
 }
 
 /* ====================================================================================== driver */
+/* The runner reads the shards' output pipes one after the other; a shard that prints more than the
+ * pipe buffer (64 KiB) blocks until its turn. The same few signatures occur in thousands of cases
+ * here, so only the first cases of a signature (per process) carry the full detail text. */
+static int g_own_process = 0;
+static int fail_full(const char *sig) {
+	static struct { char sig[64]; int n; } tab[24];
+	int i;
+	if (vf_replaying()) return 1;
+	if (g_own_process) return 0;
+	for (i = 0; i < 24; i++) {
+		if (tab[i].sig[0] == 0) snprintf(tab[i].sig, sizeof tab[i].sig, "%s", sig);
+		if (strncmp(tab[i].sig, sig, sizeof tab[i].sig - 1) == 0) return tab[i].n++ < 6;
+	}
+	return 0;
+}
+#define FAIL(sig, ...) do { if (fail_full(sig)) vf_fail(sig, __VA_ARGS__); else vf_fail(sig, "(detail: replay the case)"); } while (0)
+
 #define MAXLEAVES 66
 typedef struct { int level; int meta; } leafspec;
 
@@ -178,7 +195,7 @@ static int conv_link(const seqstate *st, KSI_HashChainLink *lk, rlink *out) {
 	KSI_MetaDataElement *mde = NULL;
 	KSI_OctetString *leg = NULL;
 	memset(out, 0, sizeof *out);
-	if (KSI_HashChainLink_getIsLeft(lk, &isLeft) != KSI_OK || (isLeft != 0 && isLeft != 1)) { vf_fail("link-malformed", "direction unreadable (%d)", isLeft); return -1; }
+	if (KSI_HashChainLink_getIsLeft(lk, &isLeft) != KSI_OK || (isLeft != 0 && isLeft != 1)) { FAIL("link-malformed", "direction unreadable (%d)", isLeft); return -1; }
 	KSI_HashChainLink_getLevelCorrection(lk, &corr);
 	KSI_HashChainLink_getImprint(lk, &imp);
 	KSI_HashChainLink_getMetaData(lk, &mde);
@@ -186,12 +203,12 @@ static int conv_link(const seqstate *st, KSI_HashChainLink *lk, rlink *out) {
 	out->is_left = isLeft;
 	out->level_corr = corr ? KSI_Integer_getUInt64(corr) : 0;
 	k = (imp != NULL) + (mde != NULL) + (leg != NULL);
-	if (k != 1) { vf_fail("link-malformed", "link carries %d sibling values (imprint %d, metadata %d, legacy id %d); exactly one expected", k, imp != NULL, mde != NULL, leg != NULL); return -1; }
-	if (leg != NULL) { vf_fail("link-malformed", "legacy id sibling in a locally built tree"); return -1; }
+	if (k != 1) { FAIL("link-malformed", "link carries %d sibling values (imprint %d, metadata %d, legacy id %d); exactly one expected", k, imp != NULL, mde != NULL, leg != NULL); return -1; }
+	if (leg != NULL) { FAIL("link-malformed", "legacy id sibling in a locally built tree"); return -1; }
 	if (imp != NULL) {
 		const unsigned char *p = NULL;
 		size_t l = 0;
-		if (KSI_DataHash_getImprint(imp, &p, &l) != KSI_OK || l > sizeof out->sib) { vf_fail("link-malformed", "sibling imprint unreadable"); return -1; }
+		if (KSI_DataHash_getImprint(imp, &p, &l) != KSI_OK || l > sizeof out->sib) { FAIL("link-malformed", "sibling imprint unreadable"); return -1; }
 		out->kind = RL_IMPRINT;
 		memcpy(out->sib, p, l);
 		out->sib_len = l;
@@ -204,12 +221,12 @@ static int conv_link(const seqstate *st, KSI_HashChainLink *lk, rlink *out) {
 		int found = -1;
 		if (KSI_MetaDataElement_toTlv(ctx, mde, 0x04, 0, 0, &tlv) != KSI_OK || KSI_TLV_getRawValue(tlv, &p, &l) != KSI_OK) {
 			KSI_TLV_free(tlv);
-			vf_fail("link-malformed", "metadata sibling can not be serialized");
+			FAIL("link-malformed", "metadata sibling can not be serialized");
 			return -1;
 		}
 		for (i = 0; i < st->n; i++) if (st->sp[i].meta && st->acc[i] && st->leaf[i].n == l && memcmp(st->leaf[i].b, p, l) == 0) { found = i; break; }
 		if (found < 0) {
-			vf_fail("meta-link-payload", "metadata sibling payload %s is not the payload of any accepted metadata leaf", vf_hex(p, l));
+			FAIL("meta-link-payload", "metadata sibling payload %s is not the payload of any accepted metadata leaf", vf_hex(p, l));
 			KSI_TLV_free(tlv);
 			return -1;
 		}
@@ -234,29 +251,29 @@ static void check_proof(const seqstate *st, int i, const unsigned char *root, si
 	res = KSI_TreeLeafHandle_getAggregationChain(st->h[i], &c);
 	vf_count("impl_calls", 1);
 	if (res != KSI_OK || c == NULL) {
-		vf_fail("chain-extract-failed", "leaf #%d (level %d, %s): getAggregationChain returned 0x%x", i, st->sp[i].level, st->sp[i].meta ? "metadata" : "hash", res);
+		FAIL("chain-extract-failed", "leaf #%d (level %d, %s): getAggregationChain returned 0x%x", i, st->sp[i].level, st->sp[i].meta ? "metadata" : "hash", res);
 		vf_outcome("proof:EXTRACT-FAILED");
 		goto done;
 	}
 	KSI_AggregationHashChain_getAggrHashId(c, &aid);
-	if (aid == NULL || KSI_Integer_getUInt64(aid) != (KSI_uint64_t)st->alg) { vf_fail("chain-algorithm", "leaf #%d: chain algorithm id %lld, builder algorithm %d", i, aid ? (long long)KSI_Integer_getUInt64(aid) : -1LL, st->alg); goto done; }
+	if (aid == NULL || KSI_Integer_getUInt64(aid) != (KSI_uint64_t)st->alg) { FAIL("chain-algorithm", "leaf #%d: chain algorithm id %lld, builder algorithm %d", i, aid ? (long long)KSI_Integer_getUInt64(aid) : -1LL, st->alg); goto done; }
 	KSI_AggregationHashChain_getInputHash(c, &ih);
-	if (!st->sp[i].meta && !ku_hash_eq(ih, st->leaf[i].b, st->leaf[i].n)) { vf_fail("chain-input", "leaf #%d: chain input hash %s is not the leaf hash %s", i, ku_hash_hex(ih), vf_hex(st->leaf[i].b, st->leaf[i].n)); goto done; }
-	if (st->sp[i].meta && ih != NULL) { vf_fail("chain-input", "metadata leaf #%d: chain carries an input hash %s", i, ku_hash_hex(ih)); goto done; }
+	if (!st->sp[i].meta && !ku_hash_eq(ih, st->leaf[i].b, st->leaf[i].n)) { FAIL("chain-input", "leaf #%d: chain input hash %s is not the leaf hash %s", i, ku_hash_hex(ih), vf_hex(st->leaf[i].b, st->leaf[i].n)); goto done; }
+	if (st->sp[i].meta && ih != NULL) { FAIL("chain-input", "metadata leaf #%d: chain carries an input hash %s", i, ku_hash_hex(ih)); goto done; }
 	KSI_AggregationHashChain_getChain(c, &ll);
 	nl = KSI_HashChainLinkList_length(ll);
-	if (nl > sizeof links / sizeof *links) { vf_fail("chain-too-long", "leaf #%d: %zu links", i, nl); goto done; }
+	if (nl > sizeof links / sizeof *links) { FAIL("chain-too-long", "leaf #%d: %zu links", i, nl); goto done; }
 	for (k = 0; k < nl; k++) {
 		KSI_HashChainLink *lk = NULL;
-		if (KSI_HashChainLinkList_elementAt(ll, k, &lk) != KSI_OK || lk == NULL) { vf_fail("link-malformed", "link %zu unreadable", k); goto done; }
+		if (KSI_HashChainLinkList_elementAt(ll, k, &lk) != KSI_OK || lk == NULL) { FAIL("link-malformed", "link %zu unreadable", k); goto done; }
 		if (conv_link(st, lk, &links[k]) != 0) goto done;
 	}
 	rr = ref_chain_aggregate(st->alg, st->leaf[i].b, st->leaf[i].n, st->sp[i].level, links, nl, out, &ol, &olv);
 	if (rr != 0) {
-		vf_fail("proof-mismatch", "leaf #%d (level %d): extracted chain of %zu links is not computable by the chain formula (level leaves 0..255 / correction > 255)", i, st->sp[i].level, nl);
+		FAIL("proof-mismatch", "leaf #%d (level %d): extracted chain of %zu links is not computable by the chain formula (level leaves 0..255 / correction > 255)", i, st->sp[i].level, nl);
 		vf_outcome("proof:MISMATCH");
 	} else if (olv != root_level || ol != root_len || memcmp(out, root, ol) != 0) {
-		vf_fail("proof-mismatch", "leaf #%d (level %d, %zu links): chain recomputes level %d root %s, builder root level %d %s", i, st->sp[i].level, nl, olv, vf_hex(out, ol), root_level, vf_hex(root, root_len));
+		FAIL("proof-mismatch", "leaf #%d (level %d, %zu links): chain recomputes level %d root %s, builder root level %d %s", i, st->sp[i].level, nl, olv, vf_hex(out, ol), root_level, vf_hex(root, root_len));
 		vf_outcome("proof:MISMATCH");
 	} else {
 		vf_outcome(st->sp[i].meta ? "proof:ok-metadata-leaf" : "proof:ok");
@@ -304,23 +321,23 @@ static void seq_body(const leafspec *sp, int n, int maxlevel, int alg, int leaf_
 		vf_count("impl_calls", 1);
 		ok = (res == KSI_OK);
 		vf_obs("a%d:%d", i, ok);
-		if (ok && st.h[i] == NULL) vf_fail("no-handle", "leaf #%d accepted but no handle returned", i);
-		if (!ok && st.h[i] != NULL) vf_fail("handle-on-refusal", "leaf #%d refused (0x%x) but a handle was returned", i, res);
+		if (ok && st.h[i] == NULL) FAIL("no-handle", "leaf #%d accepted but no handle returned", i);
+		if (!ok && st.h[i] != NULL) FAIL("handle-on-refusal", "leaf #%d refused (0x%x) but a handle was returned", i, res);
 		switch (exp) {
 			case E_ACCEPT:
 				if (ok) vf_outcome("leaf:accepted");
 				else {
 					vf_outcome("leaf:VALID-REFUSED");
-					vf_fail("valid-leaf-refused", "leaf #%d (level %d): root level after adding would be %d (max level %s%d) - reference accepts, library refused with 0x%x", i, lvl, cl, maxlevel > 0 ? "" : "unset/", maxlevel > 0 ? maxlevel : 255, res);
+					FAIL("valid-leaf-refused", "leaf #%d (level %d): root level after adding would be %d (max level %s%d) - reference accepts, library refused with 0x%x", i, lvl, cl, maxlevel > 0 ? "" : "unset/", maxlevel > 0 ? maxlevel : 255, res);
 				}
 				break;
 			case E_BAD:
 				if (!ok) vf_outcome("leaf:refused-badlevel");
-				else { vf_outcome("leaf:BADLEVEL-ACCEPTED"); vf_fail("bad-level-accepted", "leaf #%d with level %d outside 0..255 accepted", i, lvl); }
+				else { vf_outcome("leaf:BADLEVEL-ACCEPTED"); FAIL("bad-level-accepted", "leaf #%d with level %d outside 0..255 accepted", i, lvl); }
 				break;
 			case E_MAX:
 				if (!ok) vf_outcome("leaf:refused-maxlevel");
-				else { vf_outcome("leaf:MAXLEVEL-ACCEPTED"); vf_fail("maxlevel-leaf-accepted", "leaf #%d (level %d): root level after adding would be %s%d > maximum level %d, but the leaf was accepted", i, lvl, cfd >= 0 ? ">" : "", cfd >= 0 ? 255 : cl, maxlevel); }
+				else { vf_outcome("leaf:MAXLEVEL-ACCEPTED"); FAIL("maxlevel-leaf-accepted", "leaf #%d (level %d): root level after adding would be %s%d > maximum level %d, but the leaf was accepted", i, lvl, cfd >= 0 ? ">" : "", cfd >= 0 ? 255 : cl, maxlevel); }
 				break;
 			case E_OVF:
 				if (!ok) vf_outcome(cfd >= 0 ? "leaf:refused-overflow-in-carry" : "leaf:refused-overflow-at-close");
@@ -328,7 +345,7 @@ static void seq_body(const leafspec *sp, int n, int maxlevel, int alg, int leaf_
 				else {
 					doomed = 1;
 					vf_outcome("leaf:OVERFLOW-ACCEPTED");
-					vf_fail("overflow-leaf-accepted", "leaf #%d (level %d), no maximum level: the root level of the tree including this leaf would be %s (level arithmetic leaves 0..255) but the leaf was accepted%s", i, lvl,
+					FAIL("overflow-leaf-accepted", "leaf #%d (level %d), no maximum level: the root level of the tree including this leaf would be %s (level arithmetic leaves 0..255) but the leaf was accepted%s", i, lvl,
 					        cfd >= 0 ? "> 255 during the carry" : "256 or more at close", cfd >= 0 ? "" : "; close can only fail and the leaves accepted before lose their proofs");
 				}
 				break;
@@ -346,15 +363,15 @@ static void seq_body(const leafspec *sp, int n, int maxlevel, int alg, int leaf_
 	if (nacc == 0) {
 		/* nothing accepted: the statement does not speak about closing an empty builder */
 		vf_outcome("close:empty:%s", res == KSI_OK ? "ok" : "err");
-		if (res == KSI_OK && b->rootNode != NULL) vf_fail("root-of-nothing", "close of a builder without leaves produced a root");
+		if (res == KSI_OK && b->rootNode != NULL) FAIL("root-of-nothing", "close of a builder without leaves produced a root");
 	} else {
 		rnode R;
 		int rc = desync ? -3 : rf_close(&F, alg, &R);
 		if (res != KSI_OK) {
 			if (rc == -1) vf_outcome("close:err-root-level-beyond-255");    /* consequence of overflow-leaf-accepted above */
-			else { vf_outcome("close:FAILED"); vf_fail("close-failed", "close failed with 0x%x although %d leaves were accepted and the reference root level is %d", res, nacc, rc == 0 ? R.level : -1); }
+			else { vf_outcome("close:FAILED"); FAIL("close-failed", "close failed with 0x%x although %d leaves were accepted and the reference root level is %d", res, nacc, rc == 0 ? R.level : -1); }
 		} else if (b->rootNode == NULL) {
-			vf_fail("no-root", "close returned OK but there is no root node");
+			FAIL("no-root", "close returned OK but there is no root node");
 		} else {
 			unsigned char root[RN_BYTES];
 			size_t root_len = 0;
@@ -368,16 +385,16 @@ static void seq_body(const leafspec *sp, int n, int maxlevel, int alg, int leaf_
 			} else {
 				/* single metadata leaf: the root node is that leaf */
 				for (i = 0; i < n; i++) if (st.acc[i] && st.md[i] != NULL && b->rootNode->metaData == st.md[i]) { memcpy(root, st.leaf[i].b, st.leaf[i].n); root_len = st.leaf[i].n; }
-				if (root_len == 0) vf_fail("no-root", "root node has neither a hash nor the metadata of an accepted leaf");
+				if (root_len == 0) FAIL("no-root", "root node has neither a hash nor the metadata of an accepted leaf");
 			}
 			vf_outcome("close:ok");
 			if (rc == 0) {
 				if (root_level != R.level || root_len != R.n || memcmp(root, R.b, R.n) != 0) {
 					vf_outcome("root:NOT-CANONICAL");
-					vf_fail("root-not-canonical", "%d accepted leaves: canonical merge gives level %d root %s, builder root level %d %s", nacc, R.level, vf_hex(R.b, R.n), root_level, vf_hex(root, root_len));
+					FAIL("root-not-canonical", "%d accepted leaves: canonical merge gives level %d root %s, builder root level %d %s", nacc, R.level, vf_hex(R.b, R.n), root_level, vf_hex(root, root_len));
 				} else vf_outcome(nrefused ? "root:canonical-after-refusal" : "root:canonical");
 			} else if (rc == -1) {
-				vf_fail("close-beyond-255", "reference root level exceeds 255 but close succeeded with root level %d", root_level);
+				FAIL("close-beyond-255", "reference root level exceeds 255 but close succeeded with root level %d", root_level);
 			}
 			vf_obs("root:%d:%s", root_level, vf_hex(root, root_len));
 			if (root_len != 0) for (i = 0; i < n; i++) if (st.acc[i] && st.h[i] != NULL) check_proof(&st, i, root, root_len, root_level);
@@ -390,7 +407,7 @@ static void seq_body(const leafspec *sp, int n, int maxlevel, int alg, int leaf_
 	for (i = 0; i < n; i++) { KSI_DataHash_free(st.dh[i]); KSI_MetaData_free(st.md[i]); }
 	if (vf_alloc_live != base) {
 		vf_outcome("mem:LEAK");
-		vf_fail("leak", "%ld SDK blocks still live after freeing handles, builder and leaves (%d leaves, %d accepted, close %s)", vf_alloc_live - base, n, nacc, res == KSI_OK ? "ok" : "failed");
+		FAIL("leak", "%ld SDK blocks still live after freeing handles, builder and leaves (%d leaves, %d accepted, close %s)", vf_alloc_live - base, n, nacc, res == KSI_OK ? "ok" : "failed");
 	} else vf_outcome("mem:baseline");
 	vf_count("leaves_added", n);
 }
@@ -447,6 +464,7 @@ static void run_seq(const leafspec *sp, int n, int maxlevel, int alg, int leaf_a
 			dup2(pfd[1], 2);
 			close(pfd[1]);
 			alarm(100);
+			g_own_process = 1;
 			seq_body(sp, n, maxlevel, alg, leaf_alg);
 			_exit(0);
 		}
@@ -488,7 +506,7 @@ static void run_seq(const leafspec *sp, int n, int maxlevel, int alg, int leaf_a
 				snprintf(sig, sizeof sig, "crash:%s:%s", kind, where[0] ? where : "?");
 				vf_obs("own-process:%s", sig);
 				vf_outcome("midcarry:CRASH");
-				vf_fail(sig, "leaf #%d (level %d) must be refused: its carry fails at merge depth %d (level would exceed 255) after %d merge(s) succeeded; the process ended abnormally (status 0x%x) while refusing it", at, sp[at].level, depth, depth, st);
+				FAIL(sig, "leaf #%d (level %d) must be refused: its carry fails at merge depth %d (level would exceed 255) after %d merge(s) succeeded; the process ended abnormally (status 0x%x) while refusing it", at, sp[at].level, depth, depth, st);
 			}
 		}
 		vf_case_end(1);
@@ -661,9 +679,39 @@ static void part_badlevel(void) {
 static void part_blocksigner(void) {
 }
 
+/* outside any case: one-time lazy allocations of the context / hashing back end must not count
+ * as a leak of the first case of a process */
+static void warm_up(void) {
+	KSI_TreeBuilder *b = NULL;
+	KSI_TreeLeafHandle *h[3] = {NULL, NULL, NULL};
+	KSI_DataHash *dh = NULL;
+	KSI_MetaData *md = make_meta(1);
+	KSI_AggregationHashChain *c = NULL;
+	unsigned char imp[RH_MAX_IMPRINT];
+	size_t il = ref_fake_imprint(RH_SHA256, 1, imp);
+	int i;
+	if (KSI_TreeBuilder_new(ctx, KSI_HASHALG_SHA2_256, &b) != KSI_OK) vf_harness_error("warm-up: builder");
+	b->maxTreeLevel = 1;
+	if (KSI_DataHash_fromImprint(ctx, imp, il, &dh) != KSI_OK) vf_harness_error("warm-up: hash");
+	KSI_TreeBuilder_addDataHash(b, dh, 0, &h[0]);
+	KSI_TreeBuilder_addMetaData(b, md, 0, &h[1]);
+	KSI_TreeBuilder_addDataHash(b, dh, 0, &h[2]);        /* refused: beyond the maximum level */
+	KSI_TreeBuilder_close(b);
+	for (i = 0; i < 2; i++) { c = NULL; if (h[i]) KSI_TreeLeafHandle_getAggregationChain(h[i], &c); KSI_AggregationHashChain_free(c); }
+	for (i = 0; i < 3; i++) KSI_TreeLeafHandle_free(h[i]);
+	KSI_TreeBuilder_free(b);
+	KSI_DataHash_free(dh);
+	KSI_MetaData_free(md);
+}
+
 static void run(void) {
 	ctx = ku_ctx();
+	/* no recycling of freed KSI_DataHash objects inside the context: freed hashes are really freed, so
+	 * that (a) a stale reference to one is visible to ASan and (b) the live-allocation count returns to
+	 * the baseline */
+	KSI_CTX_setOption(ctx, KSI_OPT_DATAHASH_CACHE_SIZE, (void *)0);
 	if (!ref_hash_computable(RH_SHA256)) vf_harness_error("reference digests unavailable");
+	warm_up();
 	part_uniform();
 	part_failure();
 	part_badlevel();
